@@ -126,6 +126,9 @@ func main() {
 		// generations apart, with its position among its siblings shifted in between.
 		r.Cases("wrap", r.Scale(16, 160), runtime.GOMAXPROCS(0), func(c *vkit.Case) { wrapCase(c) })
 		r.Floor("second rebalancing of the same leaf exactly 2^k generations after the first", r.Table("wrap", "second rebalancing reached"), 8)
+		// Trees of 7+ levels (per-level code that is only wrong beyond some depth).
+		r.Cases("deep", r.Scale(2, 5), 3, func(c *vkit.Case) { deepTrees(c) })
+		r.Floor("trees of at least 7 levels judged", r.Table("deep", "trees judged with 7 levels"), 1)
 		// Real collectability (the statement's own words): finalizers on key and value tokens.
 		r.Cases("gc", r.Scale(6, 40), 1, func(c *vkit.Case) { gcCase(c) })
 		r.Floor("collectability probes", r.Table("gc", "probes"), 4)
